@@ -2,7 +2,7 @@
    and an assignment made through the child shadows the name for the child only: the
    parent - and every other context built over the old store - reads every name as before. *)
 From Coq Require Import List ZArith Bool Arith Lia.
-From YV Require Import Common.Corr Model.Contexts Lemmas.ContextsSpec Lemmas.ContextsHistory.
+From YV Require Import Common.Corr Common.CorrFacts Model.Contexts Lemmas.ContextsSpec Lemmas.ContextsHistory.
 Import ListNotations.
 
 Lemma sget_snoc_empty s p : sget (s ++ [empty_pstate]) p = sget s p.
@@ -129,3 +129,67 @@ Qed.
 Lemma child_keeps_others_functions s c d n :
   collect_functions (fst (create_child s c)) d n = collect_functions s d n.
 Proof. apply collect_functions_store_ext. intro p. apply sget_snoc_empty. Qed.
+
+(* ---- `def` through a child: registration shadows the name for the child only ------------------------------- *)
+Lemma get_functions_ext_on s1 s2 n c :
+  Forall (fun p => sget s1 p = sget s2 p) (sources c) -> get_functions s1 c n = get_functions s2 c n.
+Proof.
+  induction c as [p par _|ms par IH _|l par IH _] using ctx_ind'; intro H.
+  - cbn [sources] in H. inversion H as [|? ? Hp _]; subst. cbn [get_functions]. rewrite Hp. reflexivity.
+  - rewrite sources_multi in H. cbn [get_functions]. generalize (@nil fdef) false. revert H.
+    induction IH as [|m r Hm _ IHr]; intros H acc ex; [reflexivity|].
+    cbn [flat_map] in H. apply Forall_app in H. destruct H as [Ha Hb].
+    rewrite (Hm Ha). destruct (get_functions s2 m n) as [fs e]. apply IHr. exact Hb.
+  - cbn [sources] in H. cbn [get_functions]. apply IH. exact H.
+Qed.
+
+Lemma collect_functions_ext_on s1 s2 n c :
+  Forall (Forall (fun p => sget s1 p = sget s2 p)) (flatten c) ->
+  collect_functions s1 c n = collect_functions s2 c n.
+Proof.
+  intro H. rewrite !collect_functions_spec. f_equal. apply map_ext_in. intros c' Hin.
+  apply get_functions_ext_on. unfold flatten in H. rewrite Forall_map in H.
+  rewrite Forall_forall in H. apply H. exact Hin.
+Qed.
+
+Lemma child_register s c f ex : good (length s) c ->
+  let s1 := fst (create_child s c) in
+  let ch := snd (create_child s c) in
+  let s2 := fst (register s1 ch f ex) in
+  (forall n, rstrip_us n = fst f ->
+     collect_functions s2 ch n = [f] :: (if ex then [] else collect_functions s c n))
+  /\ (forall n, rstrip_us n <> fst f -> collect_functions s2 ch n = collect_functions s c n)
+  /\ (forall d n, good (length s) d -> collect_functions s2 d n = collect_functions s d n)
+  /\ (forall p, pdata (sget s2 p) = pdata (sget s p)).
+Proof.
+  intros G s1 ch s2.
+  assert (Hlen : length s < length s1).
+  { subst s1. cbn [create_child new_plain fst]. rewrite app_length. cbn. lia. }
+  assert (Hs2 : s2 = supd s1 (length s) (fun st => {| pdata := pdata st;
+                  pfuncs := if fmem f (pfuncs st) then pfuncs st else pfuncs st ++ [f];
+                  pexcl := if ex && negb (smem (fst f) (pexcl st)) then pexcl st ++ [fst f] else pexcl st |})) by reflexivity.
+  assert (Hnew : sget s1 (length s) = empty_pstate).
+  { subst s1. cbn [create_child new_plain fst]. rewrite sget_snoc_empty. apply sget_overflow. lia. }
+  assert (Hother : forall p, p <> length s -> sget s2 p = sget s p).
+  { intros p Hp. rewrite Hs2, sget_supd_other by auto. subst s1. cbn [create_child new_plain fst]. apply sget_snoc_empty. }
+  assert (Hframe : forall d n, good (length s) d -> collect_functions s2 d n = collect_functions s d n).
+  { intros d n Gd. apply collect_functions_ext_on.
+    eapply Forall_impl; [|apply good_flatten; exact Gd]. intros l Hl.
+    eapply Forall_impl; [|exact Hl]. intros p Hp. cbn beta in Hp. apply Hother. lia. }
+  assert (Hhead : sget s2 (length s) = {| pdata := []; pfuncs := [f]; pexcl := if ex then [fst f] else [] |}).
+  { rewrite Hs2, sget_supd_same by exact Hlen. rewrite Hnew. cbn [empty_pstate pdata pfuncs pexcl fmem smem negb app].
+    rewrite andb_true_r. reflexivity. }
+  split; [|split; [|split]].
+  - intros n Hn. subst ch. cbn [create_child new_plain snd collect_functions get_functions].
+    rewrite Hhead. unfold plain_functions. cbn [pfuncs pexcl filter]. rewrite Hn, str_eqb_refl.
+    rewrite (Hframe c n G). destruct ex; cbn [smem]; [rewrite str_eqb_refl|]; reflexivity.
+  - intros n Hn. subst ch. cbn [create_child new_plain snd collect_functions get_functions].
+    rewrite Hhead. unfold plain_functions. cbn [pfuncs pexcl filter].
+    assert (E : str_eqb (fst f) (rstrip_us n) = false) by (apply str_eqb_neq; congruence).
+    rewrite E. rewrite (Hframe c n G).
+    destruct ex; cbn [smem]; [rewrite str_eqb_sym, E|]; reflexivity.
+  - exact Hframe.
+  - intro p. destruct (Nat.eq_dec p (length s)) as [->|Hp].
+    + rewrite Hhead. rewrite (sget_overflow s (length s)) by lia. reflexivity.
+    + rewrite Hother by exact Hp. reflexivity.
+Qed.
